@@ -160,6 +160,24 @@ def gen_cases(tier, rng):
                         nb = le4(new)
                         for t in (0, 1):
                             cases.append("cv09 uspc 0 %d 0 %s %s" % (cnt, hx, ",".join("%d:%d:%d" % (t, i, nb[i]) for i in range(4))))
+            # copy_and_verify_string / copy_and_verify_range at the very end of sandbox memory with a sandbox that lengthens
+            # the string or flips bytes at every interleave point: only the bytes of the range that was checked are touched
+            # (the C09 driver and model: here the strings that end on the last byte, both verifier flavours)
+            from . import c09 as _c09
+            for variant in ("stru", "strs"):
+                for n in (0, 1, 3, 6):
+                    sbytes = [65 + (i % 26) for i in range(n)] + [0]
+                    for off, w in ((0, sbytes), (2, [0x7a, 0x7a] + sbytes)):
+                        hx = _c09.hexs(w)
+                        cases.append("cv09 %s %d 0 0 %s -" % (variant, off, hx))
+                        for t in range(0, len(w) + 8):
+                            cases.append("cv09 %s %d 0 0 %s %d:%d:%d" % (variant, off, hx, t, len(w) - 1, 0x21))     # terminator removed
+                            if n:
+                                cases.append("cv09 %s %d 0 0 %s %d:%d:%d" % (variant, off, hx, t, off, 0))             # shortened
+            for elsz, count in ((1, 4), (4, 2), (8, 1)):
+                w = [rng.randrange(256) for _ in range(elsz * count)]
+                for t in range(count + 3):
+                    cases.append("cv09 range 0 %d %d %s %d:%d:%d" % (elsz, count, _c09.hexs(w), t, len(w) - 1, w[-1] ^ 0xff))
         for elk in ("char", "int"):
             for cnt in (0, 1, 5):
                 cases.append("vrange%s 0 %s %d" % (cfg, elk, cnt))
